@@ -607,6 +607,79 @@ theorem dsHist_append_flush (ds : TierDS) (hist : List RStep) : dsHist ds (hist 
   | nil => rfl
   | cons st t ih => cases st <;> simp [dsHist, ih]
 
+/-! ### the in-sync latch: arbitrary status sequences -/
+
+theorem step_inSync_false {r : Resolver} (ev : Event) (h : (r.step ev).inSync = false) : r.inSync = false := by
+  cases ev with
+  | endpoint k v => cases v <;> exact h
+  | policy k v =>
+    simp only [Resolver.step] at h
+    rw [(applyPolicy_fields _ _ _).2.2.2.2.2] at h
+    cases v <;> exact h
+  | tier n v => exact h
+  | status b =>
+    simp only [Resolver.step] at h
+    split at h
+    · cases h
+    · exact h
+  | matchStarted p e => simp only [Resolver.step] at h; split at h <;> exact h
+  | matchStopped p e => simp only [Resolver.step] at h; split at h <;> exact h
+
+/-- while the resolver has never been in sync nothing has been emitted -/
+theorem runL_notInSync {r : Resolver} {L : Last} (hq : r.inSync = false → ∀ e, L e = none) (hist : List RStep)
+    {r' : Resolver} {L' : Last} (hr : runL r L hist = some (r', L')) : r'.inSync = false → ∀ e, L' e = none := by
+  induction hist generalizing r L with
+  | nil => simp only [runL, Option.some.injEq, Prod.mk.injEq] at hr; obtain ⟨rfl, rfl⟩ := hr; exact hq
+  | cons st t ih =>
+    cases st with
+    | ev e => exact ih (fun h => hq (step_inSync_false e h)) hr
+    | flush =>
+      simp only [runL] at hr
+      cases hf : r.flush with
+      | none => simp [hf] at hr
+      | some x =>
+        obtain ⟨r1, calls⟩ := x
+        simp only [hf] at hr
+        refine ih ?_ hr
+        intro h1
+        have h0 : r.inSync = false := by rw [← flush_inSync hf]; exact h1
+        obtain ⟨rfl, rfl⟩ := (flush_fields hf).2.2.2.2 h0
+        simpa [lastAfter] using hq h0
+
+/-- The latch: for ALL histories, with status changes in ANY order (regressions after in-sync
+included), after a flush the last update of every endpoint lists only policies that currently match
+that endpoint — so a policy the ActiveRulesCalculator has just declared inactive (no match left) is
+referenced by no endpoint update downstream. -/
+theorem last_update_refs_live {K : PolicyKey → Prop} (hK : KeyU K) (hist : List RStep) (hin : HistIn K hist)
+    {r : Resolver} {L : Last} (hr : runL {} (fun _ => none) (hist ++ [.flush]) = some (r, L))
+    (e : EpKey) (u : EpUpd) (hu : L e = some (some u)) :
+    ∀ t ∈ u.tiers, ∀ kv ∈ t.policies, (kv.key, e) ∈ r.matched := by
+  cases hs : r.inSync with
+  | false =>
+    have := runL_notInSync (r := {}) (L := fun _ => none) (fun _ _ => rfl) _ hr hs e
+    rw [this] at hu; cases hu
+  | true =>
+    obtain ⟨r0, L0, calls, h0, hf, rfl⟩ := runL_append_flush hist hr
+    obtain ⟨r0', L0', h0', hinv⟩ := runL_inv hK (DInv.init K) hist hin
+    rw [h0] at h0'; simp only [Option.some.injEq, Prod.mk.injEq] at h0'
+    obtain ⟨rfl, rfl⟩ := h0'
+    have hinv' := hinv.flush hK hf
+    have hs0 : r0.inSync = true := by rw [← flush_inSync hf]; exact hs
+    have hd : r.dirty = [] := ((flush_fields hf).2.2.2.1 hs0).1
+    have hg := hinv'.good e (by rw [hd]; simp)
+    unfold UpToDate at hg
+    cases hep : mget r.endpoints e with
+    | none => rw [hep] at hg; rcases hg with x | x <;> (rw [x] at hu; cases hu)
+    | some ep =>
+      rw [hep] at hg
+      obtain ⟨l, h1, h2⟩ := hg
+      rw [h1] at hu
+      simp only [Option.some.injEq] at hu
+      subst hu
+      intro t ht kv hkv
+      have hin := h2.inTier t ht kv hkv
+      exact ((h2.exact kv.key kv.val).1 ⟨t, ht, hin.symm, by cases kv; exact hkv⟩).1
+
 /-! ### `IsSpec` determines the list -/
 
 theorem sorted_ext {α : Type} {less : α → α → Bool} (hs : SWO less) {l₁ l₂ : List α}
